@@ -329,6 +329,7 @@ VARIANTS += [
     V("twin-add-one-expression", ["C08"], C, "            ctrlpoints = np.array(matra) @ self.ctrlpoints\n            ctrlpoints = ctrlpoints + np.array(matrb) @ other.ctrlpoints\n", "            ctrlpoints = np.array(matra) @ self.ctrlpoints + np.array(matrb) @ other.ctrlpoints\n", None, None, "sum written as one expression", twin=True),
     V("rev-F44", ["C03", "C04"], H, "        nodes = tuple(nodes)  # A one-pass iterable is walked only here\n        newvector = sorted(list(self) + list(nodes))\n", "        newvector = sorted(list(self) + list(nodes))\n", "WALK-ONCE", "ImmutableKnotVector.__add__", "nodes walked twice without being materialised"),
     V("twin-add-nodes-list", ["C03", "C04"], H, "        nodes = tuple(nodes)  # A one-pass iterable is walked only here\n        newvector = sorted(list(self) + list(nodes))\n", "        nodes = list(nodes)\n        newvector = sorted(list(self) + nodes)\n", None, None, "materialised as a list", twin=True),
+    V("rev-F45", ["C15"], H, "    manyvalues = list(manyvalues)\n    manynodes = list(manynodes)\n", "    manyvalues = tuple(manyvalues)\n", "TUPLE-MUTATE", "find_roots", "samples kept as tuples and popped"),
     V("insert-divide-by-umax", ["C04"], H, "        one = knotvector[-1] - knotvector[0]\n", "        one = knotvector[-1]\n", "D", "one_knot_insert_once", "unit made from the last knot alone (0 for an interval ending at 0)", near=908),
     V("increase-in-place-kv", ["C06"], C, "        nodes = self.knotvector.knots\n        newnodes = times * nodes\n        newvector = self.knotvector + newnodes\n        oldvector = tuple(self.knotvector)\n        matrix = heavy.Operations.degree_increase(oldvector, times)\n", "        oldvector = tuple(self.knotvector)\n        matrix = heavy.Operations.degree_increase(oldvector, times)\n        newvector = KnotVector(self.knotvector)\n        newvector.degree += times\n", "SHARED-KV", "degree_increase", "the stored KnotVector object is elevated in place"),
 ]
